@@ -1,0 +1,23 @@
+//! Verification instrumentation, compiled only with `--cfg dnssector_verif`.
+//! A thread-local counter of elementary validation steps (name-walk iterations,
+//! EDNS options visited, records visited). It has no effect on behaviour.
+
+use std::cell::Cell;
+
+thread_local!(static STEPS: Cell<u64> = const { Cell::new(0) });
+
+/// Counts one elementary step.
+#[inline]
+pub fn step() {
+    STEPS.with(|s| s.set(s.get() + 1));
+}
+
+/// Resets the counter of the calling thread.
+pub fn reset() {
+    STEPS.with(|s| s.set(0));
+}
+
+/// Number of steps counted on the calling thread since the last reset.
+pub fn steps() -> u64 {
+    STEPS.with(|s| s.get())
+}
